@@ -61,8 +61,8 @@ Definition find_sub (g : state) (id : N) : option sub :=
 
 Definition graft_sub (g : state) (s : sub) : sub :=
   match find_sub g (s_id s) with
-  | Some gs => with_core s (s_rep_at s) (s_retry_at s) (s_fail s) (s_seen s) (s_seen_ev s) (s_del gs) (s_dev gs)
-  | None => with_core s (s_rep_at s) (s_retry_at s) (s_fail s) (s_seen s) (s_seen_ev s) [] 0
+  | Some gs => with_core s (s_rep_at s) (s_retry_at s) (s_fail s) (s_seen s) (s_seen_ev s) (s_del gs) (s_dev gs) (s_since gs)
+  | None => with_core s (s_rep_at s) (s_retry_at s) (s_fail s) (s_seen s) (s_seen_ev s) [] 0 0
   end.
 
 Definition graft_ctx (g : state) (x : ctx) : ctx :=
@@ -94,6 +94,18 @@ Definition due_ok (s : sub) : bool :=
 (** after the sweep at [now] nothing expired is left in the table *)
 Definition swept_ok (st : state) (now : N) : bool :=
   forallb (fun s => negb (is_expired s now)) (subs st).
+
+(** a failed report (set_keep_retry) put the subscription back with the watermarks and the
+    last-success time it had, and a back-off that is not in the past *)
+Definition retry_ok (x : ctx) (s' : sub) : bool :=
+  (s_seen s' =? s_seen (x_sub x)) && (s_seen_ev s' =? s_seen_ev (x_sub x)) &&
+  (s_rep_at s' =? s_rep_at (x_sub x)) && (x_now x <=? s_retry_at s') &&
+  (s_retry_at s' <=? x_now x + N.max (s_max s') 2 * 1000).
+
+(** after the sweep at [now]: a subscription whose reports are failing is gone one maximum
+    interval after its last success (or, if it has had none since the restart, after it was resumed) *)
+Definition expiry_ok (s : sub) (now : N) : bool :=
+  (s_fail s =? 0) || (now <? s_since s + s_max s * 1000).
 
 (** * Known finding: a subscription resumed after a restart that has never been
     primed since ([reported_at = Instant::MAX]) never expires *)
